@@ -63,9 +63,18 @@ def validate_saved(ctx, case, saved_path, source_pkg, label):
 def check_fixture(ctx, case):
     from numbers_parser import Document
 
-    src = fixtures.DATA / case["fixture"]
+    src = fixtures.DATA / case["fixture"] if case["fixture"] != "<template>" else template()
     tmp = Path(tempfile.mkdtemp(prefix="vf_c07_"))
     try:
+        if case.get("colocate"):
+            # the same document with all its tile archives folded into one (the layout of issue-17)
+            from vf import layout
+
+            if not layout.colocate_tiles(src, tmp / "colocated.numbers"):
+                ctx.count("colocate_not_applicable")
+                return
+            src = tmp / "colocated.numbers"
+            ctx.count("documents_with_tiles_in_one_archive")
         source = validate.load(src)  # harness code on a shipped fixture: a failure here is a harness error, not a violation
         with warnings.catch_warnings():
             warnings.simplefilter("ignore")
@@ -179,6 +188,8 @@ def tasks(tier, seed):
         t.append(("fixture", {"fixture": name, "touch": i % 2 == 0}))
         if tier == "thorough":
             t.append(("fixture", {"fixture": name, "touch": i % 2 == 1}))
+    for name in ["<template>", "test-1.numbers", "test-save-1.numbers", "issue-43.numbers"] + ([] if tier == "quick" else ["test-formats.numbers", "issue-14.numbers", "test-3.numbers", "test-issue-76.numbers"]):
+        t.append(("fixture", {"fixture": name, "touch": False, "colocate": True}))
     for k in range(16):
         t.append(("recipes", {"n": 4 if tier == "quick" else 50, "seed": derive_seed(seed, "c07", k)}))
     for sh in (SHAPES_QUICK if tier == "quick" else SHAPES_ALL):
@@ -190,7 +201,7 @@ def run_task(ctx, lane, **kw):
     from hypothesis import Phase
 
     if lane == "fixture":
-        check_fixture(ctx, {"lane": "fixture", "fixture": kw["fixture"], "touch": kw["touch"]})
+        check_fixture(ctx, {"lane": "fixture", "fixture": kw["fixture"], "touch": kw["touch"], **({"colocate": True} if kw.get("colocate") else {})})
     elif lane == "recipes":
         strat = st.tuples(docgen.recipes(max_ops=30), st.booleans(), st.booleans())
 
